@@ -366,6 +366,67 @@ func (e *Engine) binaryWrite(st *State, args []Value) (Value, bool, string) {
 	return nilErr(), true, ""
 }
 
+// binSize returns the encoded size of a fixed-size value of type t (binary.Size), or -1.
+func binSize(t types.Type) int {
+	switch u := t.Underlying().(type) {
+	case *types.Basic:
+		w, _ := width(u)
+		if w > 0 {
+			return w / 8
+		}
+		if w == 0 {
+			return 1
+		}
+	case *types.Array:
+		es := binSize(u.Elem())
+		if es < 0 {
+			return -1
+		}
+		return es * int(u.Len())
+	case *types.Struct:
+		n := 0
+		for i := 0; i < u.NumFields(); i++ {
+			fs := binSize(u.Field(i).Type())
+			if fs < 0 {
+				return -1
+			}
+			n += fs
+		}
+		return n
+	}
+	return -1
+}
+
+// binDecode builds the value of type t from big-endian bytes src (as encoding/binary.Read does by reflection).
+func binDecode(t types.Type, src StructV) (Value, StructV) {
+	switch u := t.Underlying().(type) {
+	case *types.Basic:
+		w, _ := width(u)
+		if w == 0 {
+			return Not(Cmp("=", src[0].(*Term), C(0, 8))), src[1:]
+		}
+		n := w / 8
+		v := src[0].(*Term)
+		for _, bt := range src[1:n] {
+			v = Concat(v, bt.(*Term))
+		}
+		return v, src[n:]
+	case *types.Array:
+		out := make(StructV, int(u.Len()))
+		for i := range out {
+			out[i], src = binDecode(u.Elem(), src)
+		}
+		return out, src
+	case *types.Struct:
+		out := make(StructV, u.NumFields())
+		for i := range out {
+			out[i], src = binDecode(u.Field(i).Type(), src)
+		}
+		return out, src
+	}
+	panic("binDecode")
+}
+
 func (e *Engine) binaryRead(st *State, args []Value) (Value, bool, string) {
 	bp := args[0].(IfaceV).v.(Ptr)
 	bsl, boff := bufGet(st, bp)
@@ -374,25 +435,34 @@ func (e *Engine) binaryRead(st *State, args []Value) (Value, bool, string) {
 	var target Ptr
 	var isSlice bool
 	var sl SliceV
+	var elemT types.Type
 	switch dt := data.t.Underlying().(type) {
 	case *types.Pointer:
 		target = data.v.(Ptr)
-		switch et := dt.Elem().Underlying().(type) {
-		case *types.Basic:
-			w, _ := width(et)
-			size = w / 8
-		case *types.Slice:
+		if target.obj == 0 {
+			return nil, true, "binary.Read into nil pointer"
+		}
+		if st2, ok := dt.Elem().Underlying().(*types.Slice); ok {
 			isSlice = true
 			sl = st.load(target).(SliceV)
+			es := binSize(st2.Elem())
+			if es != 1 {
+				return nil, true, "binary.Read into slice of non-bytes"
+			}
 			size = sl.n
-		case *types.Array:
-			size = int(et.Len())
-		default:
-			return nil, true, "binary.Read ptr to " + et.String()
+		} else {
+			elemT = dt.Elem()
+			size = binSize(elemT)
+			if size < 0 {
+				return nil, true, "binary.Read ptr to " + dt.Elem().String()
+			}
 		}
 	case *types.Slice:
 		isSlice = true
 		sl = data.v.(SliceV)
+		if binSize(dt.Elem()) != 1 {
+			return nil, true, "binary.Read into slice of non-bytes"
+		}
 		size = sl.n
 	default:
 		return nil, true, "binary.Read of " + data.t.String()
@@ -416,18 +486,9 @@ func (e *Engine) binaryRead(st *State, args []Value) (Value, bool, string) {
 		st.setArr(sl, dv)
 		return nilErr(), true, ""
 	}
-	cur := st.load(target)
-	var nv Value
-	if _, isArr := cur.(StructV); isArr {
-		nv = append(StructV(nil), src...)
-	} else {
-		t := src[0].(*Term)
-		for _, bt := range src[1:] {
-			t = Concat(t, bt.(*Term))
-		}
-		nv = t
-	}
+	nv, _ := binDecode(elemT, src)
 	st.store(target, nv)
+	st.writes++
 	return nilErr(), true, ""
 }
 
